@@ -312,10 +312,12 @@ class Impl:
             cname = self.canon(name, base)
 
         def tab(d, phase_keys):
+            if not isinstance(d, dict) or not all(isinstance(k, str) for k in d):
+                return ["d", [["<not-a-table>", ["unknown", type(d).__name__]]]]
             return ["d", sorted([[k, self.canon(x, base, names if k in phase_keys else ())] for k, x in d.items()],
                                 key=lambda kv: kv[0])]
-        res = ["ok", cname, tab(cfg["parameters"], ("phase_assemblage",)), tab(cfg["input"], ()),
-               tab(cfg["output"], ("raw_output", "diagnostics"))]
+        res = ["ok", cname, tab(cfg.get("parameters"), ("phase_assemblage",)), tab(cfg.get("input"), ()),
+               tab(cfg.get("output"), ("raw_output", "diagnostics"))]
         extra = sorted(set(cfg) - {"name", "parameters", "input", "output"})
         if extra:
             res.append(["extra-keys", extra])
